@@ -454,8 +454,8 @@ func (c *pfCtx) doSet(rec *pfSet) {
 		if !ok || r[s] == 0 {
 			return -1, -1
 		}
-		p := r[s]/16 - 1
-		return p, p + r[s]%16
+		p := r[s]/64 - 1
+		return p, p + r[s]%64
 	}
 	alt := pfAltPattern(L)
 	std, err1 := regexp.Compile(alt)
@@ -645,6 +645,21 @@ func (c *pfCtx) doSet(rec *pfSet) {
 						}
 					}
 					if !doBuf(buf, offs) {
+						return
+					}
+				}
+			}
+		}
+	}
+	// every literal itself as the embedded haystack (the only occurrences of literals longer than the short haystacks)
+	for k, l := range L {
+		if !rec.Big && k >= 8 {
+			break
+		}
+		for _, fill := range fillers {
+			for _, pad := range pfPads {
+				for _, tail := range pfTails {
+					if !doBuf(pfEmbed(l, pad, tail, fill), []int{0, pad, pad + 1}) {
 						return
 					}
 				}
@@ -1015,4 +1030,213 @@ func runPrefilter(args []string) {
 	if err := rep.Close(*report); err != nil {
 		fatal(err)
 	}
+}
+
+// ---------------------------------------------------------------------------------------------------------------
+// Replay of one recorded C16 failure (a line of the -fail file or out/C16/viol_N.json).
+
+func pfParseLits(pattern string) ([][]byte, error) {
+	var L [][]byte
+	rest := pattern
+	for len(rest) > 0 {
+		q, err := strconv.QuotedPrefix(rest)
+		if err != nil {
+			return nil, fmt.Errorf("literal set %q: %v", pattern, err)
+		}
+		u, _ := strconv.Unquote(q)
+		L = append(L, []byte(u))
+		rest = strings.TrimPrefix(rest[len(q):], ",")
+	}
+	if len(L) == 0 {
+		return nil, fmt.Errorf("empty literal set")
+	}
+	return L, nil
+}
+
+// replayPrefilter re-executes the call a C16 failure record describes, recomputes the expectation with the naive
+// reference and package regexp, and reports what the implementation answers now.
+func replayPrefilter(d *core.Failure) (want, got string, violated bool, err error) {
+	h, herr := pfHexDecode(d.Hay)
+	if herr != nil {
+		return "", "", false, herr
+	}
+	start := 0
+	for _, f := range strings.Fields(d.Args) {
+		if strings.HasPrefix(f, "start=") {
+			start, _ = strconv.Atoi(strings.TrimPrefix(f, "start="))
+		}
+	}
+	switch {
+	case d.API == "DigitPrefilter.Find":
+		w := -1
+		for i := start; i < len(h); i++ {
+			if h[i] >= '0' && h[i] <= '9' {
+				w = i
+				break
+			}
+		}
+		g, p := pfSafeFind(prefilter.NewDigitPrefilter(), h, start)
+		if p != nil {
+			return strconv.Itoa(w), fmt.Sprint("panic: ", p), true, nil
+		}
+		return strconv.Itoa(w), strconv.Itoa(g), g != w, nil
+	case d.API == "Tracker.Find":
+		inner := pfTrackerInner()
+		w, _ := pfSafeFind(inner, h, start)
+		var tr *prefilter.Tracker
+		var ops string
+		var upto int
+		if strings.Contains(d.Args, "default config") {
+			var c, k int
+			if _, serr := fmt.Sscanf(d.Args[strings.Index(d.Args, "default config"):], "default config, %d ConfirmMatch then Find number %d", &c, &k); serr != nil {
+				return "", "", false, serr
+			}
+			tr = prefilter.NewTracker(inner)
+			ops, upto = strings.Repeat("C", c)+strings.Repeat("F", k), c+k
+		} else {
+			var warm, interval, num, den uint64
+			for _, f := range strings.Fields(d.Args) {
+				switch {
+				case strings.HasPrefix(f, "warmup="):
+					warm, _ = strconv.ParseUint(f[7:], 10, 64)
+				case strings.HasPrefix(f, "interval="):
+					interval, _ = strconv.ParseUint(f[9:], 10, 64)
+				case strings.HasPrefix(f, "minEff="):
+					fmt.Sscanf(f[7:], "%d/%d", &num, &den)
+				case strings.HasPrefix(f, "ops="):
+					ops = f[4:]
+				case strings.HasPrefix(f, "step="):
+					upto, _ = strconv.Atoi(f[5:])
+				}
+			}
+			if den == 0 || upto == 0 || upto > len(ops) {
+				return "", "", false, fmt.Errorf("cannot parse tracker arguments %q", d.Args)
+			}
+			tr = prefilter.NewTrackerWithConfig(inner, prefilter.TrackerConfig{WarmupPeriod: warm, CheckInterval: interval, MinEfficiency: float64(num) / float64(den)})
+		}
+		g := 0
+		for i := 0; i < upto; i++ {
+			switch ops[i] {
+			case 'F':
+				g = tr.Find(h, 0)
+			case 'M':
+				g = tr.Find(h, 1)
+			case 'C':
+				tr.ConfirmMatch()
+			case 'R':
+				tr.Reset()
+			}
+		}
+		return strconv.Itoa(w), strconv.Itoa(g), g != w, nil
+	}
+	L, perr := pfParseLits(d.Pattern)
+	if perr != nil {
+		return "", "", false, perr
+	}
+	var name, method string
+	if i := strings.LastIndex(d.API, ".Find(IsComplete)"); i >= 0 {
+		name, method = d.API[:i], "Find(IsComplete)"
+	} else if i := strings.LastIndex(d.API, ".Find+LiteralLen"); i >= 0 {
+		name, method = d.API[:i], "Find+LiteralLen"
+	} else if i := strings.LastIndex(d.API, ".FindMatch"); i >= 0 {
+		name, method = d.API[:i], "FindMatch"
+	} else if i := strings.LastIndex(d.API, ".Find"); i >= 0 {
+		name, method = d.API[:i], "Find"
+	}
+	rep, rerr := core.NewReport(os.DevNull)
+	if rerr != nil {
+		return "", "", false, rerr
+	}
+	ctx := &pfCtx{rep: rep, byFam: map[string]int{}, built: map[string]int{}, complete: map[string]int{}, failAPI: map[string]int{}}
+	var im *pfImpl
+	for _, x := range ctx.buildImpls(L) {
+		if x.name == name {
+			im = x
+		}
+	}
+	if im == nil {
+		return "", "", false, fmt.Errorf("implementation %q is no longer built for this literal set (not a violation any more)", name)
+	}
+	// references: naive and regexp must agree (three-way rule)
+	occL := pfOccVec(L, h)
+	origP, origE := pfNaiveFrom(L, h, occL, start, im.line)
+	alt := pfAltPattern(L)
+	if im.line {
+		alt = "(?m)^(?:" + alt + ")"
+	}
+	re, cerr := regexp.Compile(alt)
+	if cerr != nil {
+		return "", "", false, cerr
+	}
+	if gp, ge := pfStdFrom(re, h, start, im.line); gp != origP || ge != origE {
+		return "", "", false, fmt.Errorf("references disagree: naive %s regexp %s", pfSpanStr(origP, origE), pfSpanStr(gp, ge))
+	}
+	wantP, _ := pfNaiveFrom(im.lits, h, pfOccVec(im.lits, h), start, im.line)
+	switch method {
+	case "Find":
+		g, p := pfSafeFind(im.pf, h, start)
+		if p != nil {
+			return strconv.Itoa(wantP), fmt.Sprint("panic: ", p), true, nil
+		}
+		return strconv.Itoa(wantP), strconv.Itoa(g), g != wantP, nil
+	case "Find(IsComplete)":
+		g, _ := pfSafeFind(im.pf, h, start)
+		return "match start " + strconv.Itoa(origP), strconv.Itoa(g), im.pf.IsComplete() && g != origP, nil
+	case "FindMatch":
+		mf, ok := im.pf.(prefilter.MatchFinder)
+		if !ok || !im.pf.IsComplete() {
+			return pfSpanStr(origP, origE), "no longer complete / no FindMatch", false, nil
+		}
+		a, b, p := pfSafeFindMatch(mf, h, start)
+		if p != nil {
+			return pfSpanStr(origP, origE), fmt.Sprint("panic: ", p), true, nil
+		}
+		return pfSpanStr(origP, origE), pfSpanStr(a, b), a != origP || b != origE, nil
+	case "Find+LiteralLen":
+		g, _ := pfSafeFind(im.pf, h, start)
+		ll := im.pf.LiteralLen()
+		if !im.pf.IsComplete() || ll == 0 || g < 0 {
+			return pfSpanStr(origP, origE), "no span reported", false, nil
+		}
+		return pfSpanStr(origP, origE), pfSpanStr(g, g+ll), g != origP || g+ll != origE, nil
+	}
+	return "", "", false, fmt.Errorf("method %q", method)
+}
+
+func pfHexDecode(s string) ([]byte, error) {
+	b := make([]byte, len(s)/2)
+	for i := range b {
+		v, err := strconv.ParseUint(s[2*i:2*i+2], 16, 8)
+		if err != nil {
+			return nil, err
+		}
+		b[i] = byte(v)
+	}
+	return b, nil
+}
+
+// runPrefilterReplay: vh prefilter-replay -file <json>; exit status 1 when the recorded disagreement is reproduced,
+// 0 when the implementation now answers what the reference demands, 2 on a machinery problem.
+func runPrefilterReplay(args []string) {
+	fs := flag.NewFlagSet("prefilter-replay", flag.ExitOnError)
+	file := fs.String("file", "", "one C16 failure record (JSON)")
+	fs.Parse(args)
+	b, err := os.ReadFile(*file)
+	if err != nil {
+		fatal(err)
+	}
+	var d core.Failure
+	if err := json.Unmarshal(b, &d); err != nil {
+		fatal(err)
+	}
+	want, got, bad, rerr := replayPrefilter(&d)
+	if rerr != nil {
+		fatal(rerr)
+	}
+	fmt.Printf("C16 %s literals %s hay %s %s: want %s got %s\n", d.API, d.Pattern, d.Hay, d.Args, want, got)
+	if bad {
+		fmt.Println("REPRODUCED")
+		os.Exit(1)
+	}
+	fmt.Println("not reproduced")
 }
